@@ -46,12 +46,17 @@ def events(c):
     for t in tracks(c):
         out += list(t.note_events) + list(t.star_power_events) + list(t.track_events)
     return out
+def containers(c):
+    return tracks(c) + [c.sync_track, c.global_events_track]
+def public_names(o):
+    return [n for n in dir(o) if not n.startswith("_")]
 def must_raise(f):
     try:
         f()
     except Exception:
         return "raised"
-    return "ACCEPTED"
+    d = f.__defaults__ or ()
+    return "ACCEPTED by " + " ".join([type(d[0]).__name__] + [repr(x) for x in d[1:]] if d else ["?"])
 '''
 
 INSTRUMENTS = "GUITAR GUITAR_COOP BASS RHYTHM KEYS DRUMS GHL_GUITAR GHL_BASS GHL_COOP GHL_RHYTHM".split()
@@ -78,6 +83,18 @@ OPS.update(
         "nps_absent_difficulty": "c.notes_per_second(G, Difficulty.EASY, 0, 10)",
         "nps_noteless": "c.notes_per_second(Instrument.DRUMS, Difficulty.HARD)",
         "nps_negative_tick": "c.notes_per_second(G, X, -1, 10)",
+        "nps_ts_negative_start": "c.notes_per_second(G, X, timedelta(seconds=-1), timedelta(seconds=1))",
+        "nps_ts_negative_both": "c.notes_per_second(G, X, timedelta(seconds=-2), timedelta(seconds=-1))",
+        "nps_ts_negative_reversed": "c.notes_per_second(G, X, timedelta(seconds=-1), timedelta(seconds=-2))",
+        "nps_ts_negative_start_only": "c.notes_per_second(G, X, timedelta(microseconds=-1))",
+        "nps_ts_huge": "c.notes_per_second(G, X, timedelta(0), timedelta(days=400))",
+        "nps_tick_huge": "c.notes_per_second(G, X, 0, 2**40)",
+        "nps_end_only_tick": "c.notes_per_second(G, X, None, 40)",
+        "nps_end_only_ts": "c.notes_per_second(G, X, None, timedelta(seconds=1))",
+        "nps_keywords": "c.notes_per_second(instrument=G, difficulty=X, start=0, end=40)",
+        "nps_mixed_forms": "c.notes_per_second(G, X, 0, timedelta(seconds=1))",
+        "nps_mixed_forms_2": "c.notes_per_second(G, X, timedelta(0), 40)",
+        "nps_wrong_types": "c.notes_per_second('GUITAR', 'EXPERT', 0.5, 'x')",
         "tat_valid": "c.sync_track.bpm_events.timestamp_at_tick(7)",
         "tat_far": "c.sync_track.bpm_events.timestamp_at_tick(100000)",
         "tat_negative": "c.sync_track.bpm_events.timestamp_at_tick(-1)",
@@ -110,6 +127,12 @@ MUST_RAISE = {
     "assign_note_fields": "[must_raise(lambda e=e, a=a: setattr(e, a, None)) for t in tracks(c) for e in t.note_events for a in ('note', 'sustain', 'hopo_state', 'star_power_data', 'end_timestamp')]",
     "assign_track_fields": "[must_raise(lambda t=t, a=a: setattr(t, a, [])) for t in tracks(c) for a in ('note_events', 'star_power_events', 'track_events', 'instrument', 'difficulty')]",
     "assign_sync_fields": "[must_raise(lambda a=a: setattr(c.sync_track, a, [])) for a in ('bpm_events', 'time_signature_events', 'anchor_events')] + [must_raise(lambda: setattr(c.sync_track.bpm_events, 'resolution', 1))]",
+    # ANY attribute: a name that is not a declared field (a new one, a derived attribute, a method) is assignment too
+    "assign_event_new_name": "[must_raise(lambda e=e: setattr(e, 'verif_new_attribute', 1)) for e in events(c)]",
+    "assign_track_new_name": "[must_raise(lambda t=t: setattr(t, 'verif_new_attribute', 1)) for t in containers(c)]",
+    "assign_event_every_public_name": "[must_raise(lambda e=e, n=n: setattr(e, n, 5)) for e in events(c) for n in public_names(e)]",
+    "assign_track_every_public_name": "[must_raise(lambda t=t, n=n: setattr(t, n, 5)) for t in containers(c) for n in public_names(t)]",
+    "assign_event_private_name": "[must_raise(lambda e=e: setattr(e, '_proximal_bpm_event_index', 0)) for e in events(c)] + [must_raise(lambda e=e: setattr(e, '_verif_private', 0)) for e in events(c)]",
     "delete_event_attr": "[must_raise(lambda e=e: delattr(e, 'tick')) for e in events(c)]",
 }
 OPS.update(MUST_RAISE)
@@ -144,8 +167,9 @@ for name, expr in ops:
         r = eval(expr)
     except Exception as e:
         r = "raises " + type(e).__name__
-    if isinstance(r, list) and "ACCEPTED" in r:
-        print("VIOLATED: assignment accepted by", name); bad += 1
+    acc = sorted(set(x for x in r if str(x).startswith("ACCEPTED"))) if isinstance(r, list) else []
+    if acc:
+        print("VIOLATED:", name, ":", "; ".join(acc)); bad += 1
     s = state()
     if s != s0:
         print("VIOLATED: after", name, ":", expr)
@@ -201,8 +225,9 @@ def run_seq(ctx, cname, text, seq, twin, s0, states):
     for k, name in enumerate(seq):
         r = apply(c, name)
         ctx.edges += 1
-        if isinstance(r, list) and "ACCEPTED" in r:
-            _report(ctx, cname, text, seq[: k + 1], "accepts-assignment:" + name, "attribute assignment is accepted by %s" % name)
+        acc = sorted(set(x for x in r if str(x).startswith("ACCEPTED"))) if isinstance(r, list) else []
+        if acc:
+            _report(ctx, cname, text, seq[: k + 1], "accepts-assignment:" + name, "attribute assignment is accepted (%s): %s" % (name, "; ".join(acc)[:300]))
             return
         s = fingerprint(c, twin)
         ctx.evaluations += 3
